@@ -255,12 +255,29 @@ def gen(rng, tier):
         sc["tiers"] = [{"cap": rng.randrange(1, 5), "policy": _policy(rng), "c": rng.choice((0, 100, 500, 1000, 2000))}
                        for _ in range(nt)]
         sc["promo"] = rng.choice(("always", "always", "on_second_access", "never"))
-        own = rng.random() < 0.35
-        sc["klass"] = "mtc-own-keys" if own else "mtc"
-        weights = {"get": 10, "put": 6, "delete": 3, "inval": 1.5, "inval_all": 0.3}
-        if nt > 1:
-            weights["tget"] = 5
-        sc["clients"] = _clients(rng, fam, nk, weights, own=own, tiers=nt)
+        r = rng.random()
+        own = r < 0.25
+        extra = ()
+        if r >= 0.55:
+            # lower-tier race class: the key lives in L2 but not in the tiny L1 (L2 is warmed through the tier's public
+            # get(), L1 entries are pushed out by reads of other keys), promotion is on, the lower tier is slow, and gets
+            # race puts/deletes of the same hot key -- lower-tier hits in flight while a write lands / completes
+            nt = rng.choice((2, 2, 2, 3))
+            w_ = sc["lat"]["w"] = rng.choice((500, 1000, 1000, 2000))
+            sc["lat"]["d"] = rng.choice((w_, w_, 500))
+            sc["tiers"] = [{"cap": rng.choice((1, 1, 2)), "policy": _policy(rng), "c": rng.choice((0, 100))}] + [
+                {"cap": rng.randrange(2, 5), "policy": _policy(rng), "c": rng.choice((w_ // 2, w_, w_, 2 * w_, 3000))}
+                for _ in range(nt - 1)]
+            sc["promo"] = rng.choice(("always", "always", "on_second_access"))
+            sc["klass"] = "mtc-lower-tier-race"
+            weights = {"get": 10, "put": 6, "delete": 1.5, "inval": 0.5, "tget": 8}
+            extra = (w_ // 2, w_, w_ + 100, w_ + w_ // 2, 2 * w_ - 100, 2 * w_)
+        else:
+            sc["klass"] = "mtc-own-keys" if own else "mtc"
+            weights = {"get": 10, "put": 6, "delete": 3, "inval": 1.5, "inval_all": 0.3}
+            if nt > 1:
+                weights["tget"] = 5
+        sc["clients"] = _clients(rng, fam, nk, weights, own=own, tiers=nt, extra_gaps=extra)
     else:
         hard = rng.choice((100, 200, 300, 500, 500, 1000, 1000, 2000, 3000, 5000))  # incl. hard TTL < backing read latency
         if rng.random() < 0.3:
